@@ -687,6 +687,24 @@ def opBipFromPub (args : List String) : String :=
      | .ok k => "ok " ++ toHex k.keyData) ++ "\t="
   | _ => "bad-args"
 
+/-- `bip_toecdsa <bytes82>`: the decoded key handed to the ecdsa / secp256k1 types — the private scalar and the one
+    public point all three conversions must describe -/
+def opBipToEcdsa (args : List String) : String :=
+  match args.mapM ofHex with
+  | some [b] =>
+    (match unmarshal b with
+     | .error e => "err " ++ e.name
+     | .ok k =>
+       let pt : Option (Nat × Nat) :=
+         if k.isPrivate then some (adaptorBaseMult k.keyData)
+         else match parsePubKey k.keyData with | .ok p => some p | _ => none
+       let xy := match pt with
+         | some (x, y) => " " ++ toHex (be32 x) ++ " " ++ toHex (be32 y)
+         | none => "-err"
+       "ok " ++ (if k.isPrivate then "priv " ++ toHex (be32 (privKeyFromBytes k.keyData)) ++ xy ++ " | " else "") ++
+         "pubE" ++ xy ++ " | pubS" ++ xy) ++ "\t="
+  | _ => "bad-args"
+
 def opBipUnmarshal (args : List String) : String :=
   match args.mapM ofHex with
   | some [b] =>
@@ -774,6 +792,7 @@ def runOp (line : String) : String :=
     | "bip_reload" => opBipReload args
     | "bip_frompub" => opBipFromPub args
     | "bip_unmarshal" => opBipUnmarshal args
+    | "bip_toecdsa" => opBipToEcdsa args
     | "bip_fromstring" => opBipFromString args
     | "nonce" => opNonce args
     | "hmacobj" => opHmacObj args
